@@ -189,6 +189,7 @@ STORAGE_EVENTS_PREFIX = ("W", "R")
 
 # branch events: (regex over the resolved place/callee text of a switch operand, label)
 BRANCH_RULES = [
+    (r"^\(?move \(Lt\(copy _2, move \(copy \(\(\(\(\*_1\)\.\d+: oplog::header::Header\)\.\d+: oplog::header::HeaderHints\)\.\d+: u64\)", "start<contig"),
     (r"PartialKeypair\)\.1: std::option::Option<ed25519_dalek::SigningKey>", "secret"),
     (r"Bitfield::get\(", "has"),
     (r"HypercoreOptions\)?\.1: bool|\(_2\.1: bool\)", "options.open"),
@@ -285,6 +286,9 @@ class Model:
                     val = self.resolve(m.group(2))
                     tgt = "header.key_pair.secret" if "oplog::header::Header" in m.group(1) else "key_pair.secret"
                     evs.append("set:%s=%s" % (tgt, "None" if "::None" in val else "other"))
+                m = re.match(r"^\(\(\(\(\*_1\)\.\d+: oplog::header::Header\)\.\d+: oplog::header::HeaderHints\)\.\d+: u64\) = (.*);$", s)
+                if m:
+                    evs.append("set:contig=" + ("start" if m.group(1).strip() == "copy _2" else "other"))
                 if re.search(r"= (common::error::)?HypercoreError::NotWritable;$", s):
                     evs.append("err:NotWritable")
                 if re.search(r"= (common::error::)?HypercoreError::BadArgument \{", s):
@@ -685,6 +689,18 @@ def specs():
         ("core::clear", "clear emits no event", Table({}, ok={0}, err={0}, alpha=["send<DataUpgrade>", "send<Have>", "send<other>", "send_on_get"])),
         ("core::make_read_only", "make_read_only emits no event", Table({}, ok={0}, err={0}, alpha=["send<DataUpgrade>", "send<Have>", "send<other>", "send_on_get"])),
         ("core::flush_bitfield_and_tree_and_oplog", "flush emits no event", Table({}, ok={0}, err={0}, alpha=["send<DataUpgrade>", "send<Have>", "send<other>", "send_on_get"])),
+    ]
+    # ---- C08: contiguous length maintenance in core.rs
+    upd = lambda fn, what: (fn, what + ": every bitfield update is immediately followed by the contiguous-length update (before the tree commit / the next entry)",
+                            Table({(0, "Bitfield::update"): 1, (1, "update_contiguous_length"): 0, (0, "MerkleTree::commit"): 0, (0, "MerkleTree::truncate"): 0}, ok={0}, err={0, 1}, alpha=["set:contig=start", "set:contig=other"]))
+    S["C08"] = [
+        upd("core::append_batch", "append"),
+        upd("core::verify_and_apply_proof", "proof application"),
+        ("core::new", "replay on open: every replayed bitfield update is immediately followed by the contiguous-length update",
+         Table({(0, "Bitfield::update"): 1, (1, "update_contiguous_length"): 0, (0, "MerkleTree::commit"): 0, (0, "MerkleTree::truncate"): 0}, ok={0}, err={0, 1}, alpha=["set:contig=start", "set:contig=other"])),
+        ("core::clear", "clear: after the bitfield range is dropped the contiguous length is lowered to `start` exactly on the branch `start < contiguous_length`, and assigned nowhere else",
+         Table({(0, "Bitfield::set_range"): 1, (1, "start<contig:nz"): 2, (2, "set:contig=start"): 3, (1, "start<contig:0"): 3},
+               ok={0, 3}, err={0, 1, 3}, alpha=["set:contig=other", "update_contiguous_length", "Bitfield::update"])),
     ]
     # ---- C12: key gates
     mut = [e for e in ANY_MUTATION]
